@@ -23,9 +23,30 @@ def run(ctx):
     D.check_complete(verdicts, obs)
     if ctx.tier == "thorough":
         corrupt_probe(ctx, obs)
-    by_id = {o["id"]: o for o in obs}
+    # direction B: randomly grown programs of the abstract machine (C10_Sim), judged by FPEval!Eval on the same tree
+    simcfg = "C10_sim.cfg" if ctx.tier == "quick" else "C10_sim_thorough.cfg"
+    D.write_params(ctx, dict(PARAMS, ObsFile="/dev/null"))
+    sim = D.model_check(ctx, "C10_Sim", simcfg, timeout=1800, tag="C10-sim")
+    seen, simcases = set(), []
+    for c in sim.records:
+        if c["text"] not in seen:
+            seen.add(c["text"])
+            c["id"] = "sim/" + c["text"]
+            simcases.append(c)
+    D.write_ndjson(ctx.path("sim_cases.ndjson"), simcases)
+    D.run_harness(ctx, binary, ["sim", ctx.path("sim_cases.ndjson"), ctx.path("sim_obs.ndjson")])
+    simobs = D.read_ndjson(ctx.path("sim_obs.ndjson"))
+    simverdicts = D.judge(ctx, "C10_SimJudge", simcfg.replace("sim", "simjudge"), ctx.path("sim_obs.ndjson"), params=PARAMS, timeout=1800, tag="judge-sim")
+    D.check_complete(simverdicts, simobs)
+    ctx.extra["random_programs"] = len(simobs)
+    ctx.extra["random_programs_unconstrained"] = sum(1 for v in simverdicts if v.get("open"))
+    for o in simobs:
+        o["cs"] = {"f": 0, "shape": "sim", "fn": "-", "a": 0, "b": 0}
+    obs = obs + simobs
+    verdicts = verdicts + simverdicts
+    by_id = {o["id"]: {k: v for k, v in o.items() if k not in ("ast", "mut")} for o in obs}
     ctx.extra["unconstrained_by_spec"] = sum(1 for v in verdicts if v.get("open"))
-    keys = [(o["cs"]["f"], o["cs"]["shape"], o["cs"]["fn"], o["cs"]["a"], o["cs"]["b"]) for o in obs if o["out"]["k"] == "ok" and o["out"]["items"]]
+    keys = [(o["cs"]["f"], o["cs"]["shape"], o["cs"]["fn"], o["cs"]["a"], o["cs"]["b"], o["src"] if o["cs"]["shape"] == "sim" else "") for o in obs if o["out"]["k"] == "ok" and o["out"]["items"]]
     return D.finish(ctx, verdicts, by_id, evaluations=len(obs),
                     rule="13 foci (list-valued paths of MR1: complex, primitive, duplicate content, extensions, references, empty; and "
                          "environment collections) x {where, exists, where().exists(), all} x 16 criteria, select x 8 projections, "
